@@ -48,6 +48,19 @@ SPACES = {
 PERM_ORDER = ("print", "modify", "extract")
 
 
+_reported = {}
+
+
+def report(ck, key, what, case=None):
+    """ck.violation with a cap on replay files per key (a broken tree yields thousands of identical reports)"""
+    if not ck.is_known(key):
+        _reported[key] = _reported.get(key, 0) + 1
+        if _reported[key] > 40:
+            ck.extra["violation_reports_suppressed"] = ck.extra.get("violation_reports_suppressed", 0) + 1
+            return True
+    return ck.violation(key, what, case)
+
+
 # ---------------------------------------------------------------------------------------------- keys
 def cfg_key(c):
     return (c["V"], c["R"], c["keylen"], c["cfm"], bool(c["em"]), tuple(sorted(c["perms"])), c["id"], c["form"], c["encplace"])
@@ -179,11 +192,11 @@ def run_doc(job):
 
 # ---------------------------------------------------------------------------------------------- TLC
 def tlc_space(ck, name, consts, dev, emit, results, idx):
-    cfg = write_cfg(os.path.join(ck.tmp, "c10_%s_%s.cfg" % (name, "coded" if emit else "intended")),
-                    constants={"Dev": (tla_set(dev) if dev else "<- NoDev") if emit else "<- NoDev",
-                               "Configs": "<- " + consts[0], "PwPairs": "<- " + consts[1], "Tried": "<- " + consts[2],
-                               "Items": "<- " + consts[3]},
-                    invariants=INVARIANTS, constraints=["EmitTerminal"] if emit else [])
+    devsets = "{{}, %s}" % tla_set(dev) if dev else "{{}}"
+    cfg = write_cfg(os.path.join(ck.tmp, "c10_%s.cfg" % name),
+                    constants={"DevSets": devsets, "Configs": "<- " + consts[0], "PwPairs": "<- " + consts[1],
+                               "Tried": "<- " + consts[2], "Items": "<- " + consts[3]},
+                    invariants=INVARIANTS, constraints=["EmitTerminal"])
     try:
         res = run_tlc(SPEC, cfg, emit=emit, coverage=True, workers=8, timeout=3600, allow_violation=False)
     except BaseException as e:          # re-raised in the main thread
@@ -194,39 +207,29 @@ def tlc_space(ck, name, consts, dev, emit, results, idx):
 
 def direction_a(ck, dev):
     spaces = SPACES[ck.tier]
-    # TLC: intended design and as-coded machine for every space, in parallel; the replay starts as soon as the
-    # as-coded runs (which print the terminal states) are done, the intended-design runs are joined afterwards
-    results = [None] * (2 * len(spaces))
-    coded, intended = [], []
+    # TLC: one run per space explores the intended design (Dev = {}) and the machine as coded (Dev = the known
+    # deviations) side by side; all invariants are checked on both, terminal states of the as-coded machine are printed
+    results = [None] * len(spaces)
+    threads = []
     emits = []
     for i, (name, *consts) in enumerate(spaces):
         emit = os.path.join(ck.tmp, "c10_%s.ndjson" % name)
         emits.append(emit)
-        for j, em in enumerate((None, emit)):
-            th = threading.Thread(target=tlc_space, args=(ck, name, consts, dev, em, results, 2 * i + j))
-            th.start()
-            (coded if em else intended).append(th)
-    for th in coded:
+        th = threading.Thread(target=tlc_space, args=(ck, name, consts, dev, emit, results, i))
+        th.start()
+        threads.append(th)
+    for th in threads:
         th.join()
-
-    def finish_tlc():
-        for th in intended:
-            th.join()
-        for r in results:
-            if isinstance(r, BaseException):
-                raise r
-        for i, (name, *consts) in enumerate(spaces):
-            ri, rc = results[2 * i], results[2 * i + 1]
-            ck.add_tlc(ri, "%s space, intended design (Dev = {}): all invariants hold without excuses" % name)
-            ck.add_tlc(rc, "%s space, as coded (Dev = %s): invariants hold up to the named deviations" % (name, sorted(dev)))
-            need = [a for a in ACTIONS if not (name == "auth" and a in ("AObserveTrailer", "AGetObjCached", "ASetObjid",
-                                                                        "AStreamDecode", "AFilters", "AParseObjStm"))
-                    and not (name == "content" and a == "AReject")]
-            require_coverage(ri, need)
-            require_coverage(rc, need)
-    for i in range(len(spaces)):
-        if isinstance(results[2 * i + 1], BaseException):
-            finish_tlc()
+    for r in results:
+        if isinstance(r, BaseException):
+            raise r
+    for i, (name, *consts) in enumerate(spaces):
+        ck.add_tlc(results[i], "%s space: intended design (Dev = {}, invariants without excuses) and as coded (Dev = %s, "
+                               "invariants up to the named deviations)" % (name, sorted(dev)))
+        need = [a for a in ACTIONS if not (name == "auth" and a in ("AObserveTrailer", "AGetObjCached", "ASetObjid",
+                                                                    "AStreamDecode", "AFilters", "AParseObjStm"))
+                and not (name == "content" and a == "AReject")]
+        require_coverage(results[i], need)
     # predictions
     pred = {}        # (cfg_key, u, o) -> {tried: {item_key: record}}
     by_alg = {}      # (alg_key, item_key) -> (class, blame)   (independent of passwords / P / ID)
@@ -247,7 +250,7 @@ def direction_a(ck, dev):
                     if old != v:
                         raise MachineryError("model: an item's fate depends on passwords/P/ID: %r %r vs %r" % (ik, old, v))
         os.remove(emit)
-    if n_emitted != sum(results[2 * i + 1].emitted for i in range(len(spaces))) or n_emitted == 0:
+    if n_emitted != sum(r.emitted for r in results) or n_emitted == 0:
         raise MachineryError("emitted terminal states lost: %d read" % n_emitted)
     # realise
     jobs = []
@@ -293,10 +296,10 @@ def direction_a(ck, dev):
                     ck.note("model/code drift: cfg %r pw %s/%s tried %s: code %s, as-coded model %s" % (ak, u, o, t, rr["out"], p_any["out"]))
             if rr["out"] != expected:
                 if rr["out"] == p_any["out"] and p_any["bl"]:
-                    ck.violation("dev:" + "+".join(sorted(p_any["bl"])),
+                    report(ck, "dev:" + "+".join(sorted(p_any["bl"])),
                                  "R%s: password class %r: %s instead of %s" % (c["R"], t, rr["out"], expected), case)
                 else:
-                    ck.violation("auth:R%s:%s:%s" % (c["R"], "should-open" if ro else "should-reject", rr["out"]),
+                    report(ck, "auth:R%s:%s:%s" % (c["R"], "should-open" if ro else "should-reject", rr["out"]),
                                  "V%s R%s %s-bit %s: user/owner %s/%s, tried %r (%r): %s, expected %s"
                                  % (c["V"], c["R"], c["keylen"], c["cfm"], u, o, t, PASSWORDS[t][:20], rr["out"], expected), case)
             if rr["out"] != "opened":
@@ -304,7 +307,7 @@ def direction_a(ck, dev):
                 continue
             # permissions as stored
             if sorted(rr["perms"]) != sorted(c["perms"]):
-                ck.violation("perms", "permissions reported %r, stored %r (P variant %r)" % (rr["perms"], sorted(c["perms"]), variant),
+                report(ck, "perms", "permissions reported %r, stored %r (P variant %r)" % (rr["perms"], sorted(c["perms"]), variant),
                              dict(case, observed_perms=rr["perms"]))
             if not ro:
                 continue
@@ -334,13 +337,13 @@ def direction_a(ck, dev):
                 if cl != "plain" and gated:
                     icase = dict(case, item=list(k), observed=cl, model=mcl)
                     if cl == mcl and mbl:
-                        ck.violation("dev:" + "+".join(mbl), "%s %s in %s read back as %s" % (alg, k[1], k[0], cl), icase)
+                        report(ck, "dev:" + "+".join(mbl), "%s %s in %s read back as %s" % (alg, k[1], k[0], cl), icase)
                     else:
-                        ck.violation("item:%s:%s:%s:%s" % (k[0], k[1], alg, cl),
+                        report(ck, "item:%s:%s:%s:%s" % (k[0], k[1], alg, cl),
                                      "V%s R%s %s: %s at %s (object %s gen %s, %d bytes) read back as %s with password class %r"
                                      % (c["V"], c["R"], alg, k[1], k[0], k[3], k[4], k[5], cl, t), icase)
             if rr["text"] is not True:
-                ck.violation("text:%s:%s" % (alg, rr["text"]), "extracted text differs from the original's (V%s R%s %s, password class %r)"
+                report(ck, "text:%s:%s" % (alg, rr["text"]), "extracted text differs from the original's (V%s R%s %s, password class %r)"
                              % (c["V"], c["R"], alg, t), dict(case, observed_text=rr["text"]))
             ck.case(1, None)
         if len(ck.samples) < 4 and (u, o) == ("a", "b"):
@@ -360,7 +363,6 @@ def direction_a(ck, dev):
     missing = want - real_keys_seen
     if missing:
         raise MachineryError("model items with no realised counterpart: %r" % sorted(missing)[:5])
-    finish_tlc()
     ck.replayed += replayed
     ck.extra["opens"] = opens
     ck.extra["model_code_drift"] = drift
@@ -392,7 +394,7 @@ def value_check(ck, name, objs, rawdoc, seen, sec, alg):
         o = byn[n]
         rv = raw[n]
         if len(rv) != len(vals):
-            ck.violation("b:shape", "%s: object %d has %d values decrypted, %d raw" % (name, n, len(vals), len(rv)), {"name": name, "objid": n})
+            report(ck, "b:shape", "%s: object %d has %d values decrypted, %d raw" % (name, n, len(vals), len(rv)), {"name": name, "objid": n})
             continue
         for (tag, got), (rtag, rawv) in zip(vals, rv):
             if tag == "stream":
@@ -429,11 +431,11 @@ def value_check(ck, name, objs, rawdoc, seen, sec, alg):
                 continue
             case = {"name": name, "objid": n, "gen": o["g"], "kind": tag, "observed": cl}
             if cl == "padded" and alg.startswith("AES"):
-                ck.violation("dev:AESKeepsPadding", "%s: %s of object %d read back with padding" % (name, tag, n), case)
+                report(ck, "dev:AESKeepsPadding", "%s: %s of object %d read back with padding" % (name, tag, n), case)
             elif tag == "d" and cl == "cipher":
-                ck.violation("dev:StreamDictNotDeciphered", "%s: stream-dictionary string of object %d left encrypted" % (name, n), case)
+                report(ck, "dev:StreamDictNotDeciphered", "%s: stream-dictionary string of object %d left encrypted" % (name, n), case)
             else:
-                ck.violation("b:%s:%s:%s" % (tag, alg, cl), "%s: %s of object %d (gen %d) read back as %s" % (name, tag, n, o["g"], cl), case)
+                report(ck, "b:%s:%s:%s" % (tag, alg, cl), "%s: %s of object %d (gen %d) read back as %s" % (name, tag, n, o["g"], cl), case)
 
 
 def sample_traces(ck):
@@ -449,7 +451,7 @@ def sample_traces(ck):
                 raise MachineryError("reference cannot authenticate sample " + fn)
             tr, rest = record_trace("sample:%s:%s" % (fn, pw), data, pw, sec)
             if tr is None:
-                ck.violation("b:open:" + rest[0][1], "sample %s does not open with %r: %s" % (fn, pw, rest[0][1]), {"sample": fn, "password": pw})
+                report(ck, "b:open:" + rest[0][1], "sample %s does not open with %r: %s" % (fn, pw, rest[0][1]), {"sample": fn, "password": pw})
                 continue
             value_check(ck, tr["name"], *rest, sec, sec.alg)
             out.append(tr)
@@ -464,7 +466,7 @@ def big_traces(ck, rng, count):
         name = "big:%d:V%dR%d:%s:%s:%dobj" % (i, sec.V, sec.R, sec.alg, info["form"], info["nobj"])
         tr, rest = record_trace(name, data, pw, sec)
         if tr is None:
-            ck.violation("b:open:" + rest[0][1], "generated document %s does not open with its own password: %s" % (name, rest[0][1]),
+            report(ck, "b:open:" + rest[0][1], "generated document %s does not open with its own password: %s" % (name, rest[0][1]),
                          {"name": name, "seed": ck.seed, "index": i})
             continue
         if sec.alg != "ID":
@@ -546,7 +548,7 @@ def validate_traces(ck, traces, dev, label):
         i = v["i"]
         ev = tr["events"][i] if i < len(tr["events"]) else None
         key = "trace:observed-before-decrypted" if ev and ev.get("e") == "obs" else "trace:decrypt-not-enabled"
-        ck.violation(key, "recorded run %s is not a behaviour of CryptTrace: event #%d %r is not enabled "
+        report(ck, key, "recorded run %s is not a behaviour of CryptTrace: event #%d %r is not enabled "
                           "(decrypt on something that carries no layer / wrong object key / item still encrypted when observed)"
                      % (tr["name"], i + 1, ev), {"trace": tr["name"], "event_index": i, "event": ev,
                                                  "object": next((o for o in tr["objs"] if ev and o["n"] == ev.get("n")), None)})
@@ -593,7 +595,7 @@ def direction_b(ck, dev):
     rng = random.Random(ck.seed + 10)
     traces = sample_traces(ck)
     ns = len(traces)
-    traces += big_traces(ck, rng, 16 if ck.tier == "quick" else 300)
+    traces += big_traces(ck, rng, 12 if ck.tier == "quick" else 300)
     ck.extra["trace_events"] = sum(len(t["events"]) for t in traces)
     ck.extra["trace_objects"] = sum(len(t["objs"]) for t in traces)
     acc = validate_traces(ck, traces, dev, "decrypt-call traces (%d repository samples x passwords, %d generated documents)" % (ns, len(traces) - ns))
